@@ -208,3 +208,28 @@ PROPS["C03"] = {
         "design_ref": "DESIGN.md §2.2, §4 C03",
     },
 }
+
+PROPS["C13"] = {
+    "level": "model_checking",
+    "kani": [{"package": "boa_engine", "flags": ENGINE_FLAGS, "tags": ["model", "c13a", "c01d"]}],
+    "assumptions": COMMON_ASSUME + [
+        "digit strings are ASCII (the caller has already trimmed whitespace, sign and prefix)",
+    ],
+    "outside_claim": [
+        "Number -> text: ryu-js shortest round trip, to_js_string_radix, toFixed/toExponential/toPrecision (float formatting loops and Context; the defects the property lists there are NOT decided)",
+        "decimal text -> Number via fast-float2 (Number(), parseFloat, numeric literals)",
+        "digit strings longer than the stated bounds",
+    ],
+    "trusted_base": ["Rust's u128/u64 -> f64 `as` conversion is correctly rounded"],
+    "manifest": {
+        "text": "Kernel-level claim. Bounded model checking of the integer text->Number kernels: parseInt's digit accumulation "
+                "(from_js_str_radix) for ALL radices 2..36 on all ASCII strings up to 4 characters (accept/reject and exact value), at the "
+                "16-digit overflow boundary of its exact path for radix 10 and 16, and on the floating-point accumulation path beyond 2^53 "
+                "(radix 32, 12 digits; radix 10, 17 digits in the thorough tier) against exact 128-bit integer arithmetic followed by one "
+                "correctly rounded conversion; plus ToInt32 for all 2^64 doubles. The formatting direction is NOT decided.",
+        "note": "Trusted: Kani/CBMC float theory, Rust integer->float conversion. Outside: ryu-js, fast-float2, toFixed/toPrecision/"
+                "toExponential, toString(radix).",
+        "technique": "bounded model checking of the compiled Rust (Kani/CBMC, SAT) vs exact 128-bit integer model",
+        "design_ref": "DESIGN.md §4 C13",
+    },
+}
